@@ -159,6 +159,19 @@ class CallMixin(object):
             if kind == "lambda":
                 return self.call_lambda(p, args, node)
             if kind == "spec":
+                if p[1] == "__bincount":
+                    # bin(x).count("1") for x >= 0: the number of set bits (shared symbol popcount)
+                    lit = z3.simplify(args[0].t) if len(args) == 1 and args[0].ty == STR else None
+                    if lit is None or not z3.is_string_value(lit) or lit.as_string() != "1":
+                        raise Unsupported("bin(x).count of something else than '1'")
+                    x = p[2].t.arg(0)
+                    self.safety(x >= 0, "ValueError", "bin-count-negative", node)
+                    self.assumptions.add("bin(x).count('1') is popcount(x) for x >= 0; popcount(0) = 0 and "
+                                         "popcount(x) >= 0 (axioms of the shared symbol)")
+                    pc = z3.Function("popcount", z3.IntSort(), z3.IntSort())
+                    self.ctx.assume(pc(x) >= 0)
+                    self.ctx.assume(pc(z3.IntVal(0)) == 0)
+                    return vint(pc(x))
                 return self.spec_funcs[p[1]](self, args, node)
             if kind == "termmeth":
                 return self.term_method(p[1], p[2], args, node)
